@@ -81,7 +81,12 @@ def check_block(models, what):
         raise Viol('%s: all-zero declared root was not filled with the computed root' % what, want, blk.hashMerkleRoot)
     if blk.calc_merkle_root() != want:
         raise Viol('%s: calc_merkle_root()' % what, want, blk.calc_merkle_root())
-    tree = CBlock.build_merkle_tree_from_txids(txids)
+    given = list(txids)
+    tree = CBlock.build_merkle_tree_from_txids(given)
+    if given != txids:
+        raise Viol('%s: build_merkle_tree_from_txids changed the list it was given' % what, len(txids), len(given))
+    if list(CBlock.build_merkle_tree_from_txids(given)) != list(tree) or list(CBlock.build_merkle_tree_from_txids(tuple(txids))) != list(tree):
+        raise Viol('%s: build_merkle_tree_from_txids gives different trees for the same txids (second call / tuple)' % what, None, None)
     if list(tree) != W.merkle_tree(txids):
         raise Viol('%s: build_merkle_tree_from_txids (whole tree)' % what, [h.hex()[:8] for h in W.merkle_tree(txids)][-6:], [h.hex()[:8] for h in tree][-6:])
     if list(CBlock.build_merkle_tree_from_txs(txs)) != W.merkle_tree(txids) or list(blk.vMerkleTree) != W.merkle_tree(txids):
@@ -131,14 +136,20 @@ class Counts(Family):
 
     def cases(self, shard, tier):
         for n in shard:
-            for wp in ('none', 'all', 'last', 'coinbase_only', 'odd'):
+            for wp in ('none', 'all', 'last', 'coinbase_only', 'odd', 'coinbase_shaped_later'):
                 yield (n, wp)
 
     def check(self, case):
         n, wp = case
         models = []
         for i in range(n):
-            w = {'none': False, 'all': True, 'last': i == n - 1, 'coinbase_only': i == 0, 'odd': i % 2 == 1}[wp]
+            w = {'none': False, 'all': True, 'last': i == n - 1, 'coinbase_only': i == 0, 'odd': i % 2 == 1, 'coinbase_shaped_later': True}[wp]
+            if wp == 'coinbase_shaped_later' and i and i % 3 == 2:
+                cbl = coinbase(True)            # a coinbase-shaped transaction that is not the first one keeps its own witness hash
+                cbl['locktime'] = i
+                cbl['wit'] = [[bytes([i % 256]) * 32]]
+                models.append(cbl)
+                continue
             models.append(coinbase(w) if i == 0 else pool_tx(i, w))
         check_block(models, 'n=%d witness=%s' % (n, wp))
         return wp, n >= 2
@@ -239,9 +250,22 @@ class Weights(Family):
         want = 3 * len(W.encode_tx(m, witness=False)) + len(W.encode_tx(m))
         for mut in (False, True):
             t = C.lib_tx(m, mutable=mut)
-            got = t.calc_weight()
-            if got != want:
-                raise Viol('calc_weight() of a %s transaction' % ('mutable' if mut else 'immutable'), want, got)
+            for rep in (0, 1):
+                got = t.calc_weight()
+                if got != want:
+                    raise Viol('calc_weight() of a %s transaction' % ('mutable' if mut else 'immutable'), want, got)
+            if mut:
+                # weight . edit . weight on the same mutable object
+                from bitcoin.core import CTxWitness, CTxInWitness
+                from bitcoin.core.script import CScriptWitness, CScript
+                m2 = {'version': m['version'], 'locktime': m['locktime'], 'vin': [dict(i) for i in m['vin']], 'vout': [dict(o) for o in m['vout']]}
+                m2['wit'] = [[b'zz' * 40]] + [[] for _ in m['vin'][1:]] if not W.has_witness(m) else None
+                m2['vout'][0]['script'] = m2['vout'][0]['script'] + b'\x51' * 7
+                t.wit = CTxWitness(tuple(CTxInWitness(CScriptWitness(tuple(x))) for x in (m2['wit'] or [[] for _ in m['vin']])))
+                t.vout[0].scriptPubKey = CScript(m2['vout'][0]['script'])
+                want2 = 3 * len(W.encode_tx(m2, witness=False)) + len(W.encode_tx(m2))
+                if t.calc_weight() != want2:
+                    raise Viol('calc_weight() of a mutable transaction is stale after edits', want2, t.calc_weight())
         return 'ok', W.has_witness(m)
 
 
